@@ -155,20 +155,32 @@ def scenario_ops(name):
     return _CACHE[name]
 
 
-def trace_events(fn, shared):
-    """sequence of (filename, lineno) line events of fn(shared) inside the library"""
-    events = []
+OPCODE_FUNCS = ("scale", "to_affine", "x", "y", "_maybe_precompute", "__eq__", "double", "to_bytes", "_raw_encode", "__mul__", "precompute")
 
+
+def _make_tracer(on_event, level):
+    """tracer factory: calls on_event(frame) for every library line event (level 'line') or for every opcode event
+    inside the functions that touch shared point state (level 'opcode')"""
     def local(frame, event, arg):
-        if event == "line":
-            events.append((frame.f_code.co_filename, frame.f_lineno))
+        if event == level:
+            on_event(frame)
         return local
 
     def tracer(frame, event, arg):
         if event == "call" and frame.f_code.co_filename.startswith(TRACED_PREFIX):
+            if level == "opcode":
+                if frame.f_code.co_name not in OPCODE_FUNCS:
+                    return None
+                frame.f_trace_opcodes = True
             return local
         return None
-    sys.settrace(tracer)
+    return tracer
+
+
+def trace_events(fn, shared, level="line"):
+    """sequence of (filename, lineno) events of fn(shared) inside the library"""
+    events = []
+    sys.settrace(_make_tracer(lambda fr: events.append((fr.f_code.co_filename, fr.f_lineno)), level))
     try:
         res = fn(shared)
     finally:
@@ -176,8 +188,8 @@ def trace_events(fn, shared):
     return events, res
 
 
-def run_with_preemption(fnA, fnB, shared, at):
-    """Run fnA; at its `at`-th library line event run fnB to completion in a second thread."""
+def run_with_preemption(fnA, fnB, shared, at, level="line"):
+    """Run fnA; at its `at`-th library event run fnB to completion in a second thread."""
     count = [0]
     box = {}
 
@@ -187,20 +199,13 @@ def run_with_preemption(fnA, fnB, shared, at):
         except BaseException as e:  # noqa
             box["b"] = "raised %s: %s" % (type(e).__name__, e)
 
-    def local(frame, event, arg):
-        if event == "line":
-            if count[0] == at:
-                t = threading.Thread(target=run_b)
-                t.start()
-                t.join()
-            count[0] += 1
-        return local
-
-    def tracer(frame, event, arg):
-        if event == "call" and frame.f_code.co_filename.startswith(TRACED_PREFIX):
-            return local
-        return None
-    sys.settrace(tracer)
+    def on_event(frame):
+        if count[0] == at:
+            t = threading.Thread(target=run_b)
+            t.start()
+            t.join()
+        count[0] += 1
+    sys.settrace(_make_tracer(on_event, level))
     try:
         try:
             a = fnA(shared)
@@ -211,9 +216,9 @@ def run_with_preemption(fnA, fnB, shared, at):
     return a, box.get("b", "B-not-run")
 
 
-def points_for(ctx, name, a):
+def points_for(ctx, name, a, level="line"):
     mk, ops = scenario_ops(name)
-    events, _ = trace_events(ops[a][0], mk())
+    events, _ = trace_events(ops[a][0], mk(), level)
     n = len(events)
     if SCENARIOS[name][0] == "p256" and ctx.quick:
         cap = 6
@@ -236,6 +241,11 @@ def cases(ctx):
             idx, skipped = points_for(ctx, name, a)
             for c in range(0, len(idx), CHUNK_POINTS):
                 yield ("curve", name, a, b, c, skipped if c == 0 else 0)
+            # opcode-level preemption inside the methods that read or publish shared point state (splits multi-load lines)
+            if SCENARIOS[name][0] == "small" or not ctx.quick:
+                idx2, _ = points_for(ctx, name, a, "opcode")
+                for c in range(0, len(idx2), CHUNK_POINTS):
+                    yield ("curve-op", name, a, b, c, 0)
         for a in ops:
             yield ("curve-seq", name, a)
 
@@ -249,26 +259,27 @@ def run_case(ctx, case):
         if got != ops[a][1]:
             o.viol("curve|sequential|%s" % a, "%s %s: sequential result %r differs from the reference %r" % (name, a, got, ops[a][1]))
         return o
+    level = "opcode" if case[0] == "curve-op" else "line"
     _, name, a, b, c, skipped = case
     mk, ops = scenario_ops(name)
-    idx, _ = points_for(ctx, name, a)
+    idx, _ = points_for(ctx, name, a, level)
     fa, ea = ops[a]
     fb, eb = ops[b]
     o = Outcome("agree", True)
     n = 0
     for at in idx[c:c + CHUNK_POINTS]:
-        ra, rb = run_with_preemption(fa, fb, mk(), at)
+        ra, rb = run_with_preemption(fa, fb, mk(), at, level)
         n += 1
         if rb == "B-not-run":
             o.viol("curve|harness", "preemption point %d was not reached" % at)
             break
         if ra != ea or rb != eb:
-            events, _ = trace_events(fa, mk())
+            events, _ = trace_events(fa, mk(), level)
             f, ln = events[at]
             o.cls = "schedule-dependent"
             o.viol("curve|%s|%s-vs-%s" % (name, a, b),
-                   "%s: A=%s preempted at line event %d (%s:%d) by B=%s: A -> %r (expected %r), B -> %r (expected %r)" % (
+                   "%s: A=%s preempted at " + level + " event %d (%s:%d) by B=%s: A -> %r (expected %r), B -> %r (expected %r)" % (
                        name, a, at, f.rsplit("/", 1)[-1], ln, b, ra, ea, rb, eb))
             break
-    o.extra = {"preemption_points": n, "capped_line_occurrences": skipped}
+    o.extra = {"preemption_points": n, "capped_line_occurrences": skipped, "opcode_level_points": n if level == "opcode" else 0}
     return o
